@@ -78,3 +78,32 @@ Proof.
     + apply (list_eqb_spec Z.eqb Z.eqb_eq) in H2. subst. reflexivity.
   - intro H. apply Z.eqb_eq in H. subst. reflexivity.
 Qed.
+
+(* [holds_view] true means: at every step at which the implementation answered a read-only by-ID
+   query (PhenoSimulator.run, Haplotypes.transform) on contents [t], and a search of the IDs of
+   [t] itself answers it (no duplicates among them), the implementation's answer is that answer.
+   For PhenoSimulator.run this names the columns: the answer is [sim_view] of the columns of [t]
+   bearing the requested IDs, in the order requested.  Stated for every threshold type [T]
+   ([holds_view k] is the instance T = float, rare = rareF, by definition). *)
+Lemma holds_view_sound {T} (rare : T -> Z -> Z -> bool) file anc legacy steps :
+  holds_view_gen rare file anc legacy steps = true ->
+  forall p t v fr t' v',
+    In (XOn p, GO t (OView v), fr) steps ->
+    a_step gtab gview g_ids1 g_ids2 g_sub1 g_sub2 t (g_interp T rare file anc legacy p) = Ok (t', OView v') ->
+    v = v'.
+Proof.
+  intros H p t v fr t' v' Hin Ha. unfold holds_view_gen in H. rewrite forallb_forall in H.
+  specialize (H _ Hin). unfold view_ok_gen in H. rewrite Ha in H. apply gview_eqb_true. exact H.
+Qed.
+
+Lemma holds_view_sim {T} (rare : T -> Z -> Z -> bool) file anc legacy steps :
+  holds_view_gen rare file anc legacy steps = true ->
+  forall ids t v fr,
+    In (XOn (GSim ids), GO t (OView v), fr) steps ->
+    nodupZ (g_ids2 t) = true ->
+    forall t2, g_sub2 (g_ids2 t) ids t = Ok t2 -> v = sim_view t2.
+Proof.
+  intros H ids t v fr Hin Hnd t2 Hs.
+  apply (holds_view_sound rare file anc legacy steps H (GSim ids) t v fr t (sim_view t2) Hin).
+  unfold g_interp, a_step, chk. cbn [is_some andb bind]. rewrite Hnd. cbn [negb bind]. rewrite Hs. reflexivity.
+Qed.
